@@ -182,3 +182,480 @@ def _replay_ins(model, ob):
             return {"confirmed": True, "function": INS, "inputs": {"html_content": html, "js_content": js, "css_content": css},
                     "expected": want, "observed": got}
     return {"confirmed": False, "tried": docs}
+
+
+# ================================================================================================ render_dependencies
+from pyvc import ops  # noqa: E402
+from pyvc.contracts import Tup  # noqa: E402
+from pyvc.interp import Closure, EngineError, ExcVal, PyRaise  # noqa: E402
+from pyvc.types import NONE, Conc, TBool, TStr, VTuple  # noqa: E402
+
+DEP = "django_components.dependencies"
+RD = f"{DEP}:render_dependencies"
+S_, B_ = z3.StringSort(), z3.BoolSort()
+# the input / output value: kind 0 = str, 1 = SafeString, 2 = bytes;  data = the text (kinds 0, 1) or the bytes (latin-1 view)
+CONTENT = Tup(Int, Str, tag="Content", fields=["kind", "data"])
+OS_ = TOpt(TStr)
+REG.contracts[INS].pure = True
+REG.contracts[INS].call_entry = _entry
+
+
+def utf8(s):
+    return ops.uf("utf8_encode", S_, S_)(s)
+
+
+def utf8dec(b):
+    return ops.uf("utf8_decode", S_, S_)(b)
+
+
+def valid(b):
+    return ops.uf("utf8_valid", S_, B_)(b)
+
+
+def _kind(v):
+    return CONTENT.proj(v, 0)
+
+
+def _data(v):
+    return CONTENT.proj(v, 1)
+
+
+def _isinstance_content(run, v, name):
+    k = _kind(v.t)
+    m = {"SafeString": k == 1, "SafeData": k == 1, "str": z3.Or(k == 0, k == 1), "bytes": k == 2}
+    if name not in m:
+        raise EngineError(f"isinstance(content, {name})")
+    return m[name]
+
+
+REG.stub(("isinstance_of", "Content"), _isinstance_content)
+
+
+def _encode(run, t):
+    """A-UTF8: str.encode() is injective with inverse bytes.decode() on its image"""
+    c = z3.simplify(t)
+    if z3.is_string_value(c) and all(ord(ch) < 128 for ch in c.as_string()):
+        return Val(TStr, c, pykind="bytes")
+    e = utf8(t)
+    run.assume(z3.And(valid(e), utf8dec(e) == t))
+    return Val(TStr, e, pykind="bytes")
+
+
+def _concat_parts(t):
+    if z3.is_app(t) and t.decl().kind() == z3.Z3_OP_SEQ_CONCAT:
+        return [q for ch in t.children() for q in _concat_parts(ch)]
+    return [t]
+
+
+def _decode(run, obj, node):
+    t = obj.t
+    c = z3.simplify(t)
+    if z3.is_string_value(c) and all(ord(ch) < 128 for ch in c.as_string()):
+        return Val(TStr, c, pykind="str")
+    parts = _concat_parts(t)
+    if len(parts) > 1:
+        run.assume(z3.Implies(z3.And(*[valid(p_) for p_ in parts]), valid(t)))    # A-UTF8: valid ++ valid is valid
+    run.implicit_raise(valid(t), "UnicodeDecodeError", node, "bytes.decode() of bytes that are not UTF-8")
+    d = utf8dec(t)
+    run.assume(utf8(d) == t)
+    return Val(TStr, d, pykind="str")
+
+
+REG.stub(("method", "Content", "encode"), lambda run, obj, args, kwargs, node: _encode(run, _data(obj.t)))
+REG.stub(("method", "Str", "encode"), lambda run, obj, args, kwargs, node: _encode(run, obj.t))
+REG.stub(("method", "Str", "decode"), lambda run, obj, args, kwargs, node: _decode(run, obj, node))
+REG.stub("django.utils.safestring.mark_safe", lambda run, args, kwargs, node: Val(TStr, run.coerce(args[0], TStr).t, pykind="safe"))
+
+
+def _to_content(run, v, ty):
+    """the value handed back to the caller: its Python type is the static kind of the expression that produced it"""
+    kinds = {"str": 0, "safe": 1, "bytes": 2}
+    if v.pykind not in kinds:
+        raise EngineError("the returned value is built in a way whose str / bytes / SafeString kind is not tracked")
+    return Val(CONTENT, CONTENT.mk(z3.IntVal(kinds[v.pykind]), v.t))
+
+
+REG.stub(("coerce", "Str", "Content"), _to_content)
+REG.stub(("coerce", "Content", "Content"), lambda run, v, ty: v)
+
+
+# ---- _process_dep_declarations: ASSUMED (marker harvest + tag generation; its pieces are C04 / C19)
+def pdd(which, b0, ty):
+    return ops.uf(f"process_dep_declarations_{which}", S_, S_, S_)(b0, ty)
+
+
+def _pdd_stub(run, args, kwargs, node):
+    a0 = args[0]
+    b0 = _data(a0.t) if a0.ty == CONTENT else run.coerce(a0, TStr).t
+    ty = run.coerce(args[1], TStr).t
+    c1, js, css = pdd("content", b0, ty), pdd("js", b0, ty), pdd("css", b0, ty)
+    # generated tags are encoded text; removing (ASCII) marker comments keeps valid UTF-8 valid
+    run.assume(z3.And(valid(js), valid(css), z3.Implies(valid(b0), valid(c1))))
+    run.ghost["bytes_in"] = Val(TStr, b0)
+    run.ghost["c1"], run.ghost["js"], run.ghost["css"] = Val(TStr, c1), Val(TStr, js), Val(TStr, css)
+    return VTuple([Val(TStr, c1, pykind="bytes"), Val(TStr, js, pykind="bytes"), Val(TStr, css, pykind="bytes")])
+
+
+REG.stub(f"{DEP}:_process_dep_declarations", _pdd_stub)
+
+# ---- PLACEHOLDER_REGEX.sub(callback, bytes): A-RE - every match is replaced by callback(match), in order, once each
+CSS_NAME, JS_NAME = z3.StringVal("CSS_PLACEHOLDER"), z3.StringVal("JS_PLACEHOLDER")
+
+
+def subst(c1, cssr, jsr):
+    """c1 with every CSS placeholder replaced by cssr and every JS placeholder by jsr"""
+    return ops.uf("placeholders_replaced", S_, S_, S_, S_)(c1, cssr, jsr)
+
+
+def has_ph(kind, c1):
+    return ops.uf(f"has_{kind}_placeholder", S_, B_)(c1)
+
+
+def _ph_sub(run, args, kwargs, node):
+    cb, content = args[0], args[1]
+    if isinstance(cb, Val) and cb.ty is TStr:
+        # a constant replacement: every placeholder of either kind is replaced by it
+        c1 = run.coerce(content, TStr).t
+        out = subst(c1, cb.t, cb.t)
+        run.assume(z3.And(valid(z3.StringVal("")), z3.Implies(z3.And(valid(c1), valid(cb.t)), valid(out))))
+        return Val(TStr, out, pykind="bytes")
+    if not (isinstance(cb, Conc) and isinstance(cb.obj, Closure)):
+        raise EngineError("PLACEHOLDER_REGEX.sub: the replacement is not a local callback")
+    clo = cb.obj
+    outer = clo.frame
+    c1 = run.coerce(content, TStr).t
+    rx = run.x.eval_const(run, run.x.finfo.module, "PLACEHOLDER_REGEX").obj
+    if not (isinstance(rx, tuple) and rx[0] == "regex"):
+        raise EngineError("PLACEHOLDER_REGEX is not a constant pattern")
+    run.ghost["ph_regex"] = Conc(rx)
+    cssr, jsr = outer.lookup("css_replacement"), outer.lookup("js_replacement")
+    if cssr is None or jsr is None:
+        raise EngineError("callback does not use css_replacement / js_replacement of the enclosing function")
+    flags0 = {n: outer.lookup(n) for n in ("did_find_css_placeholder", "did_find_js_placeholder")}
+    # the callback is run on ONE generic match of each kind of word in the pattern's language (lemma#placeholder_lang:
+    # a word contains the CSS name or - otherwise - the JS name): what it returns and which flag it sets may depend on
+    # nothing else.  The RuntimeError branch must be unreachable.
+    for kind, fact in (("css", lambda tx: z3.Contains(tx, CSS_NAME)), ("js", lambda tx: z3.And(z3.Not(z3.Contains(tx, CSS_NAME)), z3.Contains(tx, JS_NAME)))):
+        m = z3.FreshConst(MATCH.sort(), f"ph_match_{kind}")
+        run.assume(fact(MATCH.proj(m, 2)))
+        for n, v0 in flags0.items():
+            outer.vars[n] = v0
+        try:
+            ret = run.x.inline_call(run, clo, [Val(MATCH, m)], {}, node)
+        except PyRaise as e:
+            run.oblige(f"callback#{kind}_placeholder_does_not_raise", z3.BoolVal(False), kind="safe", note=f"callback raised {e.exc.tname} on a {kind} placeholder")
+            raise
+        want = cssr if kind == "css" else jsr
+        run.oblige(f"callback#{kind}_placeholder_replaced_by_{kind}_tags", run.coerce(ret, TStr).t == want.t, kind="post")
+        for n in flags0:
+            now = run.truth(outer.lookup(n))
+            should = z3.BoolVal(True) if n == f"did_find_{kind}_placeholder" else run.truth(flags0[n])
+            run.oblige(f"callback#{kind}_placeholder_sets_only_its_flag", now == should, kind="post")
+    # summary over all matches
+    outer.vars["did_find_css_placeholder"] = Val(TBool, z3.Or(run.truth(flags0["did_find_css_placeholder"]), has_ph("css", c1)))
+    outer.vars["did_find_js_placeholder"] = Val(TBool, z3.Or(run.truth(flags0["did_find_js_placeholder"]), has_ph("js", c1)))
+    out = subst(c1, cssr.t, jsr.t)
+    run.assume(z3.Implies(z3.And(valid(c1), valid(cssr.t), valid(jsr.t)), valid(out)))
+    run.assume(valid(z3.StringVal("")))
+    run.ghost["c2"] = Val(TStr, out)
+    return Val(TStr, out, pykind="bytes")
+
+
+def _lemma_placeholder_lang():
+    """Every word of PLACEHOLDER_REGEX contains the CSS placeholder name or the JS placeholder name."""
+    import re
+    import importlib.util
+    from pyvc.repo import SRC
+    src = open(f"{SRC}/django_components/dependencies.py").read()
+    # the pattern is assembled from f-strings / format(): evaluate just those module constants
+    import ast as _ast
+    tree = _ast.parse(src)
+    env = {"re": re}
+    want = {"CSS_PLACEHOLDER_NAME", "JS_PLACEHOLDER_NAME", "MAYBE_COMP_ID", "MAYBE_COMP_CSS_ID", "PLACEHOLDER_REGEX"}
+    for st in tree.body:
+        if isinstance(st, _ast.Assign) and len(st.targets) == 1 and isinstance(st.targets[0], _ast.Name) and st.targets[0].id in want:
+            exec(compile(_ast.Module([st], []), "<consts>", "exec"), env)
+    rx = env["PLACEHOLDER_REGEX"]
+    lang = regex_lang(("regex", rx.pattern.decode("latin-1"), rx.flags & ~re.UNICODE, True))
+    x = z3.String("x")
+    return [z3.InRe(x, lang)], z3.Or(z3.Contains(x, CSS_NAME), z3.Contains(x, JS_NAME))
+
+
+REG.lemma("lemma#placeholder_lang", P, _lemma_placeholder_lang, note="language fact of PLACEHOLDER_REGEX (regex2smt): a match is a CSS or a JS placeholder")
+
+
+# ---- specification
+def _g(c, name):
+    return c.ghost[name].t
+
+
+def _found(c, kind):
+    return has_ph(kind, _g(c, "c1"))
+
+
+def _out(c, b):
+    """bytes -> the value of the input's type"""
+    return z3.If(_kind(c.old("content").t) == 2, b, utf8dec(b))
+
+
+def _ins(html, js, css):
+    return ops.uf(f"pure_{INS}", S_, OS_.sort(), OS_.sort(), OS_.sort())(html, js, css)
+
+
+def _doc_default(c):
+    """the default-location step of the property: CSS / JS go to </head> / </body> exactly when THEIR placeholder is absent"""
+    c2 = subst(_g(c, "c1"), _g(c, "css"), _g(c, "js"))
+    css = z3.If(_found(c, "css"), OS_.none(), OS_.some(utf8dec(_g(c, "css"))))
+    js = z3.If(_found(c, "js"), OS_.none(), OS_.some(utf8dec(_g(c, "js"))))
+    ins = _ins(utf8dec(c2), js, css)
+    return z3.If(OS_.is_none(ins), c2, utf8(OS_.get(ins)))
+
+
+def _is_doc(c):
+    return c.old("type").t == z3.StringVal("document")
+
+
+def _is_frag(c):
+    return c.old("type").t == z3.StringVal("fragment")
+
+
+
+def _no_decode_error(c):
+    """region of F-C08b's complement: the bytes handed to .decode() are UTF-8"""
+    return z3.BoolVal(True)
+
+
+REG.contract(
+    RD, prop=P, types={"content": CONTENT, "type": Str}, result=CONTENT,
+    calls={"PLACEHOLDER_REGEX.sub": _ph_sub},
+    requires=[lambda c: z3.And(0 <= _kind(c["content"].t), _kind(c["content"].t) <= 2)],
+    modifies=[],
+    raises={"ValueError": lambda c: z3.Not(z3.Or(_is_doc(c), _is_frag(c))),
+            # bytes that are not UTF-8 cannot go through the default-location step: finding F-C08b
+            "UnicodeDecodeError": lambda c: z3.BoolVal(False)},
+    findings={"xpre#UnicodeDecodeError": lambda c: z3.And(_kind(c.old("content").t) == 2, z3.Not(valid(_data(c.old("content").t))), _is_doc(c))},
+    ensures={
+        # "the str / bytes / SafeString type of the input is preserved"
+        "same_type_as_the_input": lambda c: _kind(c["result"].t) == _kind(c.old("content").t),
+        # the bytes given to the marker harvest are the input (encoded when it is text)
+        "whole_input_is_processed": lambda c: _g(c, "bytes_in") == z3.If(_kind(c.old("content").t) == 2, _data(c.old("content").t), utf8(_data(c.old("content").t))),
+        # fragment mode: placeholders removed, JS appended at the end, nothing else
+        "fragment_appends_js_at_the_end": lambda c: z3.Implies(_is_frag(c), _data(c["result"].t) == _out(c, z3.Concat(
+            subst(_g(c, "c1"), z3.StringVal(""), z3.StringVal("")), _g(c, "js")))),
+        # document mode: tags at every placeholder; a kind WITHOUT placeholder goes to its default location
+        "document_placeholders_only": lambda c: z3.Implies(z3.And(_is_doc(c), _found(c, "css"), _found(c, "js")),
+                                                           _data(c["result"].t) == _out(c, subst(_g(c, "c1"), _g(c, "css"), _g(c, "js")))),
+        "document_default_locations_for_the_kinds_without_placeholder": lambda c: z3.Implies(
+            z3.And(_is_doc(c), z3.Not(z3.And(_found(c, "css"), _found(c, "js")))), _data(c["result"].t) == _out(c, _doc_default(c))),
+    },
+)
+
+
+def _f08b(w):
+    from django.conf import settings
+    if not settings.configured:
+        from tests.django_test_setup import setup_test_config
+        setup_test_config({"autodiscover": False})
+    from django_components import render_dependencies
+    try:
+        render_dependencies(b"<html><head></head><body>\xe9</body></html>")
+    except UnicodeDecodeError:
+        return True
+    return False
+
+
+FINDING_REPLAYS = {"F-C08b": _f08b}
+
+
+@REG.replay(RD)
+def _replay_rd(model, ob):
+    """Native scenario battery for the clauses of the contract (the model's values are abstract): one rendered component with
+    JS and CSS; documents with no / one / both placeholders; str, SafeString, bytes; document and fragment."""
+    import re
+    from django.conf import settings
+    if not settings.configured:
+        from tests.django_test_setup import setup_test_config
+        setup_test_config({"autodiscover": False})
+    from django.template import Context, Template
+    from django.utils.safestring import SafeString, mark_safe
+    from django_components import Component, registry, render_dependencies
+
+    class ReplayC08(Component):
+        template = "<div>x</div>"
+        css = ".replay-c08 { color: red; }"
+        js = "console.log('replay-c08');"
+    name = "replay_c08"
+    if name in registry.all():
+        registry.unregister(name)
+    registry.register(name, ReplayC08)
+    try:
+        def raw(t):
+            return Template("{% load component_tags %}" + t).render(Context({}))
+        probe = render_dependencies(raw("[[C:{% component_css_dependencies %}:C]][[J:{% component_js_dependencies %}:J]]{% component 'replay_c08' / %}"))
+        css_blob = re.search(r"\[\[C:(.*?):C\]\]", probe, re.S).group(1)
+        js_blob = re.search(r"\[\[J:(.*?):J\]\]", probe, re.S).group(1)
+        comp = "{% component 'replay_c08' / %}"
+        docs = {
+            "no placeholder": "<html><head><title>t</title></head><body>" + comp + "</body></html>",
+            "css placeholder only": "<html><head>{% component_css_dependencies %}</head><body>" + comp + "</body></html>",
+            "js placeholder only": "<html><head></head><body>" + comp + "{% component_js_dependencies %}<p>é</p></body></html>",
+            "both placeholders": "<html><head>{% component_css_dependencies %}</head><body>" + comp + "{% component_js_dependencies %}</body></html>",
+        }
+        for label, t in docs.items():
+            r = raw(t)
+            out = render_dependencies(r)
+            has_c, has_j = "CSS_PLACEHOLDER" in r, "JS_PLACEHOLDER" in r
+            want_css_pos = out.find(css_blob)
+            want_js_pos = out.find(js_blob)
+            if want_css_pos < 0 or (not has_c and not out[want_css_pos + len(css_blob):].lower().startswith("</head")):
+                return {"confirmed": True, "function": "render_dependencies", "inputs": {"document": label, "type": "document"},
+                        "expected": "CSS tags at the placeholder, else immediately before the first </head>", "observed": out[:300]}
+            if want_js_pos < 0 or (not has_j and not out[want_js_pos + len(js_blob):].lower().startswith("</body")):
+                return {"confirmed": True, "function": "render_dependencies", "inputs": {"document": label, "type": "document"},
+                        "expected": "JS tags at the placeholder, else immediately before the last </body>", "observed": out[-300:]}
+        base = raw(docs["no placeholder"])
+        for kind, val in (("str", str(base)), ("SafeString", mark_safe(base)), ("bytes", base.encode())):
+            for ty in ("document", "fragment"):
+                out = render_dependencies(val, type=ty)
+                same = (type(out) is bytes) if kind == "bytes" else (isinstance(out, SafeString) if kind == "SafeString" else (type(out) is str))
+                if not same:
+                    return {"confirmed": True, "function": "render_dependencies", "inputs": {"input type": kind, "type": ty},
+                            "expected": f"a {kind}", "observed": type(out).__name__}
+    finally:
+        registry.unregister(name)
+    return {"confirmed": False}
+
+
+# ================================================================================================ the middleware
+from pyvc.contracts import Obj, Ref  # noqa: E402
+
+MW = f"{DEP}:ComponentDependencyMiddleware._process_response"
+RESP = "HttpResponse"
+REG.heap_class(RESP, {"content": CONTENT}, module=DEP)     # django's response object: only `.content` is mutable here
+
+
+def is_streaming(r):
+    return ops.uf("response_is_streaming", z3.IntSort(), B_)(r)
+
+
+def content_type(r):
+    return ops.uf("response_content_type_header", z3.IntSort(), S_)(r)
+
+
+def _isinstance_resp(run, v, name):
+    if name != "StreamingHttpResponse":
+        raise EngineError(f"isinstance(response, {name})")
+    return is_streaming(v.t)
+
+
+def _resp_get(run, obj, args, kwargs, node):
+    k = z3.simplify(run.coerce(args[0], TStr).t)
+    if not (z3.is_string_value(k) and k.as_string() == "Content-Type" and len(args) == 2 and z3.is_string_value(z3.simplify(run.coerce(args[1], TStr).t))):
+        raise EngineError("response.get(...) other than get('Content-Type', <constant default>)")
+    # a missing header yields the default; content_type(r) stands for the header value or that default
+    run.ghost["ctype_default"] = run.coerce(args[1], TStr)
+    return Val(TStr, content_type(obj.t))
+
+
+REG.stub(("isinstance_of", f"Ref_{RESP}"), _isinstance_resp)
+REG.stub(("method", f"Ref_{RESP}", "get"), _resp_get)
+
+
+def _rd_call_entry(run, sf):
+    run.ghost["rd_content"], run.ghost["rd_type"], run.ghost["rd_result"] = sf.vars["content"], sf.vars["type"], sf.vars["result"]
+    for k in ("bytes_in", "c1", "js", "css"):
+        run.ghost.setdefault(k, Val(TStr, z3.FreshConst(S_, f"rd_{k}")))      # ghost of the callee's ensures (not used by callers)
+
+
+REG.contracts[RD].call_entry = _rd_call_entry
+
+
+def _content(c, old=False):
+    return z3.Select(c.field(RESP, "content", old), c.old("response").t)
+
+
+def _is_html(c):
+    r = c.old("response").t
+    return z3.And(z3.Not(is_streaming(r)), z3.PrefixOf(z3.StringVal("text/html"), content_type(r)))
+
+
+def _others_untouched(c):
+    r = z3.FreshConst(z3.IntSort(), "r")
+    return z3.ForAll([r], z3.Implies(r != c.old("response").t, z3.Select(c.field(RESP, "content"), r) == z3.Select(c.field(RESP, "content", True), r)))
+
+
+def _rd(c, name, ty):
+    """ghost of the render_dependencies call (an unconstrained value when the path made no such call)"""
+    return c.ghost[name].t if name in c.ghost else z3.FreshConst(ty.sort(), f"no_{name}")
+
+
+_MW_REGION = lambda c: z3.And(_is_html(c), z3.Not(valid(_data(_content(c, True)))))
+
+REG.contract(
+    MW, prop=P, types={"response": Ref(RESP)}, result=Ref(RESP), self_type=Obj("Middleware"),
+    requires=[lambda c: c["response"].t > 0, lambda c: _kind(_content(c)) == 2],       # HttpResponse.content is bytes
+    modifies=[f"{RESP}.content"],
+    raises={"UnicodeDecodeError": lambda c: z3.BoolVal(False)},
+    findings={"xpre#UnicodeDecodeError": _MW_REGION},
+    ensures={
+        "same_response_object": lambda c: c["result"].t == c.old("response").t,
+        # "non-HTML or streaming responses pass through the middleware untouched"
+        "streaming_or_non_html_untouched": lambda c: z3.Implies(z3.Not(_is_html(c)), _content(c) == _content(c, True)),
+        "no_other_response_touched": _others_untouched,
+        "html_body_is_render_dependencies_of_the_old_body_as_a_document": lambda c: z3.Implies(_is_html(c), z3.And(
+            _rd(c, "rd_content", CONTENT) == _content(c, True), _rd(c, "rd_type", TStr) == z3.StringVal("document"), _content(c) == _rd(c, "rd_result", CONTENT))),
+    },
+)
+
+
+def _f08b_mw(w):
+    from django.conf import settings
+    if not settings.configured:
+        from tests.django_test_setup import setup_test_config
+        setup_test_config({"autodiscover": False})
+    from django.http import HttpResponse
+    from django_components.dependencies import ComponentDependencyMiddleware
+    body = "<html><head></head><body>é</body></html>".encode("latin-1")
+    mw = ComponentDependencyMiddleware(lambda request: HttpResponse(body, content_type="text/html; charset=latin-1"))
+    try:
+        mw(None)
+    except UnicodeDecodeError:
+        return True
+    return False
+
+
+FINDING_REPLAYS["F-C08b-mw"] = _f08b_mw
+
+
+@REG.replay(MW)
+def _replay_mw(model, ob):
+    from django.conf import settings
+    if not settings.configured:
+        from tests.django_test_setup import setup_test_config
+        setup_test_config({"autodiscover": False})
+    from django.http import HttpResponse, StreamingHttpResponse
+    from django_components.dependencies import ComponentDependencyMiddleware
+    body = b'<html><head><link name="CSS_PLACEHOLDER"></head><body><script name="JS_PLACEHOLDER"></script></body></html>'
+    cases = [("streaming text/html", lambda: StreamingHttpResponse(iter([body]), content_type="text/html"), False),
+             ("application/json", lambda: HttpResponse(body, content_type="application/json"), False),
+             ("text/plain", lambda: HttpResponse(body, content_type="text/plain"), False),
+             ("text/html", lambda: HttpResponse(body, content_type="text/html; charset=utf-8"), True)]
+    for label, mk, processed in cases:
+        resp = mk()
+        before = b"".join(resp.streaming_content) if resp.streaming else resp.content
+        if resp.streaming:
+            resp = mk()
+        out = ComponentDependencyMiddleware(lambda request: resp)(None)
+        after = b"".join(out.streaming_content) if out.streaming else out.content
+        if out is not resp or (after != before) != processed:
+            return {"confirmed": True, "function": "ComponentDependencyMiddleware._process_response", "inputs": {"response": label},
+                    "expected": "body rewritten as a document" if processed else "body untouched", "observed": after[:120].decode("latin-1")}
+    return {"confirmed": False}
+
+ASSUMES = ["A-PY", "A-INST", "A-LOG", "A-RE", "A-UTF8", "A-UNI", "A-DJ"]
+NOT_COVERED = [
+    "_process_dep_declarations is an ASSUMED stub here (three functions of (bytes, type)): that it removes only marker comments and generates the right tags is C04 / C19, the marker-stripping re.sub itself is not under contract",
+    "Pattern.sub with a callback is ASSUMED to replace every match by callback(match), once each, in order (A-RE); the callback is checked on one generic CSS-kind and one generic JS-kind match (every word of PLACEHOLDER_REGEX is one or the other: lemma#placeholder_lang)",
+    "validity of UTF-8 under concatenation / placeholder substitution is assumed (A-UTF8); django's HttpResponse is modelled as an object with a bytes `.content`, an immutable header and a streaming flag",
+    "the str / bytes / SafeString kind of the returned value is tracked statically through encode / decode / mark_safe / + (a returned value built any other way is a checker failure, not a pass)",
+]
